@@ -88,7 +88,11 @@ class ExprMixin:
             fake = type("F", (), {})()
             fake.module = module; fake.qualname = f"{module.name}.<module>"; fake.file = module.relpath; fake.cls = None
             fr = Frame(fake, ())
-            cache[k] = self.ev(module.constants[name], {PC: False, LT: False}, fr)
+            v = self.ev(module.constants[name], {PC: False, LT: False}, fr)
+            if v.types & {"dict", "list", "set"}:
+                # module-level mutable state: a store into it is a write to global state
+                v = replace(v, org=frozenset({("global", 0)}))
+            cache[k] = v
         return cache[k]
 
     # -- displays ----------------------------------------------------------------------------
@@ -613,6 +617,9 @@ class ExprMixin:
         if fv is not None:
             outs.append(fv)
         else:
+            if not self._always_assigned(classes, name):
+                # a field that only some method other than __init__ assigns may not exist yet
+                self.raise_exc(frame, "AttributeError", node, env, False, reason=f"attribute {name} is not assigned by __init__ and may be missing")
             h = self.hint(cq, name, base)
             if h is not None:
                 outs.append(h)
@@ -625,6 +632,33 @@ class ExprMixin:
         if missing:
             self.raise_exc(frame, "AttributeError", node, env, False, reason=f"attribute {name} missing on some subclass of {cq}")
         return join_all(outs) if outs else ANY
+
+    def _always_assigned(self, classes, name):
+        cache = self.__dict__.setdefault("_init_fields", {})
+        for k in classes:
+            key = (k.qualname, name)
+            if key not in cache:
+                ok = False
+                for m in k.mro:
+                    if name in m.attrs or name in m.methods:
+                        ok = True
+                    init = m.methods.get("__init__")
+                    if init is not None:
+                        for (fn, st) in m.own_fields.get(name, []):
+                            if fn is init:
+                                ok = True
+                    for pname, sf in m.setters.items():
+                        # field stored by a property setter that __init__ assigns through
+                        if any(fn is sf for fn, _ in m.own_fields.get(name, [])):
+                            for mm in k.mro:
+                                if any(fn.name == "__init__" for fn, _ in mm.own_fields.get(pname, [])):
+                                    ok = True
+                if not any(name in m.all_fields() for m in [k]):
+                    ok = True   # not a known field at all: handled by the 'missing' logic
+                cache[key] = ok
+            if not cache[key]:
+                return False
+        return True
 
     def hint(self, cq, name, base: AVal):
         c = self.prog.classes.get(cq)
